@@ -135,6 +135,11 @@ func rederiveArchive(files map[string][]par2rw.Packet, oldSet [16]byte) {
 			if pk[i].Type == par2rw.TypeFileDesc && pk[i].SetID == oldSet {
 				if d, err := par2rw.DecodeFileDesc(pk[i].Body); err == nil {
 					nid := par2rw.FileID(d.Hash16k, d.Length, []byte(d.Name()))
+					if nid == d.ID {
+						// an unmutated copy of the description (in another file of
+						// the archive) must not undo the mapping of the mutated one
+						continue
+					}
 					idMap[d.ID] = nid
 					d.ID = nid
 					pk[i].Body = d.Body()
